@@ -262,12 +262,11 @@ def Select(histories, windows, tier):
     if w['tag'] == 'solo':
       required += hs
     elif w['tag'] == 'soloreuse':
-      if True:
-        for h in hs:
-          segs = Segments(h)
-          if len(segs) == 1 and tuple(m for _, m in segs[0][1]) in [
-              tuple(x) for x in cfg['solo_reuse']]:
-            required.append(h)
+      for h in hs:
+        segs = Segments(h)
+        if len(segs) == 1 and tuple(m for _, m in segs[0][1]) in [
+            tuple(x) for x in cfg['solo_reuse']]:
+          required.append(h)
     elif w['tag'] == 'incant3' and tier == 'quick':
       single = [h for h in hs if Shape(h)[0] == 1]
       optional_by_w.append(rng.sample(single, min(len(single), 12)))
@@ -666,7 +665,7 @@ def Classify(j, entries, windows, runner, workdir, classifier):
                'history on the real code and has TLC (HistoryTrace) judge '
                'the two recorded traces'}
     name = '%s_%s_%s' % (h['id'], re.sub(r'\W+', '_', entry['id']), dv['pred'])
-    path = common.WriteReplay(PROP, name[:80], payload)
+    path = common.WriteReplay(PROP, name[:80] + RepoTag(), payload)
     violations.append(path)
     common.Violation(PROP, path)
   return violations, known, uniq
@@ -802,11 +801,19 @@ def Missing(cov, entries):
 # ---- entry points ---------------------------------------------------------------------------
 
 
+def RepoTag():
+  """Scratch directories are per tree under test, so that runs against
+  different $LOGICA_REPO do not share files."""
+  if os.path.realpath(common.REPO) == '/repo':
+    return ''
+  return '_' + common.Sha(os.path.realpath(common.REPO))[:8]
+
+
 def Run(tier):
   clock = common.Clock()
   t_start = time.time()
   cfg = TIERS[tier]
-  workdir = common.BuildDir('c13', tier)
+  workdir = common.BuildDir('c13', tier + RepoTag())
   for f in os.listdir(workdir):
     if f.startswith('windows') or f.startswith('corpus'):
       os.unlink(os.path.join(workdir, f))
@@ -984,7 +991,7 @@ def Run(tier):
 def Replay(path):
   with open(path) as f:
     payload = json.load(f)
-  workdir = common.BuildDir('c13', 'replay')
+  workdir = common.BuildDir('c13', 'replay' + RepoTag())
   c13corpus.WriteModules()
   entries = payload['corpus']
   for e in entries:
